@@ -218,3 +218,77 @@ M("c06-iobuffer-direct-emit-io", ["C06"], IR,
   '        port = self.emit_io_use(instance.port, src_loc=instance.src_loc)', '        port = self.emit_io(instance.port)', "R-06c")
 M("c06-early-check-no-raise", ["C06"], "amaranth/hdl/_dsl.py",
   '                    if sig_domain[bit] != domain:\n                        raise SyntaxError(', '                    if False:\n                        raise SyntaxError(', "R-06e")
+
+# ------------------------------------------------------------------------------------------------ C07
+M("c07-y-width-wrong", ["C07"], RTLIL,
+  '                "A_SIGNED": signed,\n                "A_WIDTH": len(operand),\n                "Y_WIDTH": cell.width,',
+  '                "A_SIGNED": signed,\n                "A_WIDTH": len(operand),\n                "Y_WIDTH": len(operand),', "R-07a")
+M("c07-part-b-width", ["C07"], RTLIL,
+  '            "A_WIDTH": len(cell.value),\n            "B_WIDTH": offset_width,', '            "A_WIDTH": len(cell.value),\n            "B_WIDTH": len(cell.offset),', "R-07a")
+M("c07-ff-width", ["C07"], RTLIL,
+  '            "WIDTH": len(cell.data),\n            "CLK_POLARITY": {', '            "WIDTH": len(cell.data) + 1,\n            "CLK_POLARITY": {', "R-07a")
+M("c07-memrd-abits", ["C07"], RTLIL,
+  '            "ABITS": len(cell.addr),\n            "WIDTH": cell.width,\n            "TRANSPARENCY_MASK"', '            "ABITS": cell.width,\n            "WIDTH": cell.width,\n            "TRANSPARENCY_MASK"', "R-07a")
+M("c07-port-id-step-2", ["C07"], RTLIL, '            line.port_id += 1', '            line.port_id += 2', "R-07b")
+M("c07-empty-cell-not-skipped", ["C07"], RTLIL,
+  '            if not self.empty_checker.is_empty(submodule_idx):\n                dotted_name', '            if True:\n                dotted_name', "R-07c")
+M("c07-empty-def-not-skipped", ["C07"], RTLIL,
+  '        if empty_checker.is_empty(module_idx):\n            continue\n', '', "R-07c")
+M("c07-submodule-io-ports-dropped", ["C07"], RTLIL,
+  '                for name, (value, _dir) in submodule.io_ports.items():\n                    ports[name] = self.io_sigspec(value)\n', '', "R-07d")
+M("c07-print-args-width", ["C07"], RTLIL, '            "ARGS_WIDTH": len(args),', '            "ARGS_WIDTH": len(format),', "R-07a")
+M("c07-new-unallocated-name", ["C07"], RTLIL,
+  '            wire = self.builder.wire(len(value), attrs=self.value_attrs.get(value, {}))',
+  '            wire = self.builder.wire(len(value), name=f"w{len(self.nets)}", attrs=self.value_attrs.get(value, {}))', "R-07b")
+
+# ------------------------------------------------------------------------------------------------ C08
+M("c08-template-writes-curr", ["C08"], PYRTL,
+  'emitter.append(f"slots[{signal_index}].update(next_{signal_index}, {mask})")',
+  'emitter.append(f"slots[{signal_index}].curr = next_{signal_index}")', "R-08a")
+M("c08-commit-before-processes", ["C08"], PYSIM,
+  '            # 1b. eval: run every runnable processes once, queueing signal changes;',
+  '            converged = self._state.commit(changed)', ["R-08b"])
+M("c08-testbenches-set", ["C08"], PYSIM, '        self._testbenches = []', '        self._testbenches = set()', "R-08d")
+M("c08-clock-true-division", ["C08"], "amaranth/sim/_pyclock.py",
+  'self.state.set_delay_waker(self.period // 2, waker)', 'self.state.set_delay_waker(self.period / 2, waker)', "R-08e")
+M("c08-trigger-wake-before-sample", ["C08"], PYSIM,
+  '        self.compute_result()\n        self._combination._process.runnable = True',
+  '        self._combination._process.runnable = True\n        self.compute_result()', "R-08b")
+M("c08-rescan-only-if-waiting", ["C08"], PYSIM,
+  '                        assert type(testbench.waits_on) is _PyTriggerState, \\\n                            "Async testbenches may only await simulation triggers"\n                    converged = False',
+  '                        assert type(testbench.waits_on) is _PyTriggerState, \\\n                            "Async testbenches may only await simulation triggers"\n                        converged = False', "R-08f")
+M("c08-assign-base-curr", ["C08", "C05", "C02"], PYEVAL,
+  '        value = sim.slots[slot].next\n', '        value = sim.slots[slot].curr\n', "R-02g")
+M("c08-period-float", ["C08"], "amaranth/hdl/_time.py",
+  'self._femtoseconds = round(value * _TIME_UNITS[unit])', 'self._femtoseconds = value * _TIME_UNITS[unit]', "R-08e")
+M("c08-testbench-sorted", ["C08"], PYSIM,
+  '            for testbench in self._testbenches:\n                if testbench.runnable:',
+  '            for testbench in reversed(self._testbenches):\n                if testbench.runnable:', "R-08d")
+M("c08-sim-reads-next", ["C08"], PYRTL,
+  '            return f"slots[{self.state.get_signal(value)}].{self.mode}"', '            return f"slots[{self.state.get_signal(value)}].next"', "R-08a")
+
+# ------------------------------------------------------------------------------------------------ C09
+M("c09-missing-domains-unsorted", ["C09"], IR,
+  'for domain_name in sorted(collector.used_domains - collector.defined_domains):',
+  'for domain_name in collector.used_domains - collector.defined_domains:', "R-09a")
+M("c09-used-signals-set", ["C09"], IR, '        self.used_signals = _ast.SignalDict()', '        self.used_signals = set()', "R-09a")
+M("c09-mem-queue-not-reset", ["C09"], PYSIM,
+  '        self.data = list(self.memory._init._raw)\n        self.write_queue = {}', '        self.data = list(self.memory._init._raw)', "R-09b")
+M("c09-archive-bare-filename", ["C09"], "amaranth/build/run.py",
+  'archive.writestr(zipfile.ZipInfo(filename), self.files[filename])', 'archive.writestr(filename, self.files[filename])', "R-09c")
+M("c09-digest-unsorted", ["C09"], "amaranth/build/run.py",
+  '        hasher = hashlib.blake2b(digest_size=size)\n        for filename in sorted(self.files):',
+  '        hasher = hashlib.blake2b(digest_size=size)\n        for filename in self.files:', "R-09c")
+M("c09-timeline-now-not-reset", ["C09"], PYSIM,
+  '    def reset(self):\n        self.now = 0\n        self.wakers.clear()', '    def reset(self):\n        self.wakers.clear()', "R-09b")
+M("c09-clock-initial-not-reset", ["C09"], "amaranth/sim/_pyclock.py",
+  '        self.critical = False\n\n        self.initial = True\n\n    def run', '        self.critical = False\n\n    def run', "R-09b")
+M("c09-new-set-iteration", ["C09"], IR,
+  '        for signal, value in self.netlist.signals.items():\n            fragment = self.design.signal_lca[signal]',
+  '        for signal in set(self.netlist.signals):\n            value = self.netlist.signals[signal]\n            fragment = self.design.signal_lca[signal]', "R-09a")
+M("c09-slots-not-reset", ["C09"], PYSIM,
+  '        self.timeline.reset()\n        for state in self.slots:\n            state.reset()', '        self.timeline.reset()', "R-09b")
+M("c09-id-in-name", ["C09"], IR,
+  '                name = f"port${value[0].cell}${value[0].bit}"', '                name = f"port${id(value)}"', "R-09a")
+M("c09-benign-sorted-ports", ["C09"], IR,
+  'for net in sorted(module.net_flow):', 'for net in sorted(sorted(module.net_flow)):', "silent")
